@@ -51,12 +51,8 @@ def encode_key(key):
 
 
 def show_key(key):
-    def one(c):
-        if isinstance(c, slice):
-            s = ("" if c.start is None else str(c.start)) + ":" + ("" if c.stop is None else str(c.stop))
-            return s + ("" if c.step is None else ":" + str(c.step))
-        return str(c)
-    return "(" + ", ".join(one(c) for c in key) + ("," if len(key) == 1 else "") + ")"
+    """Valid python source of the key tuple (usable inside a[...] and dump(...))."""
+    return repr(tuple(key))
 
 
 def key_class(key):
